@@ -34,12 +34,18 @@ struct Ctx
     quintptr qtid[64] = { 0 }; // logical thread -> Qt thread id
     int cur_main_op = -1;
     bool is_worker[64] = { false };
+    int nested = 0; // messages logged by the logger thread itself (relog handler)
+    int nesting = 0; // relog calls in progress
+    bool destroying = false; // the handler object is being (or about to be) destroyed: nobody may log through it
+    bool slow_done[64] = { false };
 };
 extern Ctx *C;
 
 int parse_call_id(const QString &msg);
 void note_thread();
 void do_log(int producer, int opidx, const Op &op, bool fatal);
+const Op &nested_op(); // the fixed message a relog handler logs (producer 62)
+constexpr int kNestedProducer = 62;
 void run_ops(int producer, const std::vector<Op> &ops);
 void install_quit_begin_marker();
 sim::SchedConfig sched_config(const Plan &P);
